@@ -152,6 +152,11 @@ def _users_may(ex, vb, gi, flds):
     for j, recs in vb.items():
         if any(gi in r['refs'] for r in recs):
             ex.y(j, flds)
+            # a <field> that merely wraps an inline callback (plain record, class or interface struct)
+            # uses the type through that callback: C05 lets it follow the callback
+            for r in recs:
+                if r['tag'] == 'callback' and '/field[' in r['owner'] and r['owner'] in vb:
+                    ex.y(r['owner'], ('@introspectable',))
 
 
 def _fn_ids_of_class(cls):
